@@ -17,6 +17,7 @@ package dataflow
 import (
 	"fmt"
 	"go/token"
+	"go/types"
 
 	"github.com/awslabs/ar-go-tools/analysis/defers"
 	"github.com/awslabs/ar-go-tools/analysis/lang"
@@ -447,6 +448,12 @@ func (state *IntraAnalysisState) markValue(i ssa.Instruction, v ssa.Value, path 
 		// if the element marked was loaded from a pointer-like object, that pointer-like object is now marked
 		if miVal.Op == token.MUL && lang.IsNillableType(miVal.X.Type()) {
 			state.markValue(i, miVal.X, path, mark)
+		}
+	case *ssa.Lookup:
+		// if the element marked was looked up in a map and is a pointer-like object (or the tuple of a comma-ok lookup
+		// holding one), then data written through it is reachable from the map: the map is marked with indexing
+		if mapType, isMap := miVal.X.Type().Underlying().(*types.Map); isMap && lang.IsNillableType(mapType.Elem()) {
+			state.markValue(i, miVal.X, accessPathPrependIndexing(path), mark)
 		}
 	case *ssa.Next:
 		// if the element marked is the result of next on an iterator, then the iterator is marked to ensure the mark
